@@ -7,6 +7,7 @@ import (
 	"context"
 	"encoding/json"
 	"fmt"
+	"io"
 	"math/rand"
 	"path"
 	"sort"
@@ -39,6 +40,36 @@ func (v vfc30GaugeVec) WithLabelValues(...string) prometheus.Gauge { return v.g 
 
 func vfc30NewGaugeVec() vfc30GaugeVec {
 	return vfc30GaugeVec{g: prometheus.NewGauge(prometheus.GaugeOpts{Name: "vfc30"})}
+}
+
+// vfc30Bkt bounds the bucket work of one Plan call: the size/downsample filters mark each block at most once (one Exists + one Upload),
+// so a Plan call that issues more than 4*len(metas)+16 bucket operations makes no progress; from then on every operation fails, which
+// ends the planner's loop (logical-step criterion for non-termination, no clock).
+type vfc30Bkt struct {
+	objstore.Bucket
+	ops, limit int
+}
+
+func (b *vfc30Bkt) tick() error {
+	b.ops++
+	if b.ops > b.limit {
+		return fmt.Errorf("vfc30: planner exceeded %d bucket operations in one Plan call", b.limit)
+	}
+	return nil
+}
+
+func (b *vfc30Bkt) Exists(ctx context.Context, name string) (bool, error) {
+	if err := b.tick(); err != nil {
+		return false, err
+	}
+	return b.Bucket.Exists(ctx, name)
+}
+
+func (b *vfc30Bkt) Upload(ctx context.Context, name string, r io.Reader, o ...objstore.ObjectUploadOption) error {
+	if err := b.tick(); err != nil {
+		return err
+	}
+	return b.Bucket.Upload(ctx, name, r, o...)
 }
 
 type vfc30Block struct {
@@ -323,12 +354,13 @@ func vfc30Run(ctx context.Context, r *vfkit.Run, c int, rng *rand.Rand, cs vfc30
 	ncFilter := NewGatherNoCompactionMarkFilter(logger, ibkt, 2)
 	counter := prometheus.NewCounter(prometheus.CounterOpts{Name: "vfc30c"})
 	base := NewPlanner(logger, cs.Ranges, ncFilter)
+	pbkt := &vfc30Bkt{Bucket: mem}
 	var planner Planner = base
 	switch cs.Variant {
 	case "size-filter":
-		planner = WithLargeTotalIndexSizeFilter(base, mem, cs.SizeLimit, counter)
+		planner = WithLargeTotalIndexSizeFilter(base, pbkt, cs.SizeLimit, counter)
 	case "vertical-downsample-filter":
-		planner = WithVerticalCompactionDownsampleFilter(WithLargeTotalIndexSizeFilter(base, mem, cs.SizeLimit, counter), mem, counter)
+		planner = WithVerticalCompactionDownsampleFilter(WithLargeTotalIndexSizeFilter(base, pbkt, cs.SizeLimit, counter), pbkt, counter)
 	}
 
 	largest := cs.Ranges[len(cs.Ranges)-1]
@@ -370,8 +402,14 @@ func vfc30Run(ctx context.Context, r *vfkit.Run, c int, rng *rand.Rand, cs vfc30
 			r.T.Fatalf("no-compact filter: %v", err)
 		}
 		before := ncFilter.NoCompactMarkedBlocks()
+		pbkt.ops, pbkt.limit = 0, 4*len(metas)+16
 		plan, err := planner.Plan(ctx, metas, nil, nil)
 		r.Eval(1)
+		if pbkt.ops > pbkt.limit {
+			r.Violation(c, "plan:does-not-terminate", fmt.Sprintf("one Plan call over %d metas issued more than %d bucket operations (each block can be marked at most once): the planner's re-plan loop makes no progress (%s, %s)", len(metas), pbkt.limit, cs.Variant, cs.Layout),
+				wit(map[string]any{"step": step, "blocks": cur}))
+			return
+		}
 		if err != nil {
 			r.Violation(c, "plan:error", fmt.Sprintf("Plan returned an error on valid metas: %v", err), wit(map[string]any{"step": step, "blocks": cur}))
 			return
